@@ -103,6 +103,7 @@ def config_cases(out, drv):
 
 def env_cases(out, thorough):
     env_then_update_cases(out)
+    thread_cases(out)
     spellings = ["1", "true", "TRUE", "0", "False", "yes", ""] if not thorough else ["1", "true", "TRUE", "tRuE", "0", "false", "False", "FALSE", "yes", "", "2", " 1"]
     code = (
         "import sys\n"
@@ -164,6 +165,70 @@ def env_then_update_cases(out):
             k = next(i for i, (a, b) in enumerate(zip(res, want)) if a != b)
             out.violation("env-then-update", f"JAXTYPING_DISABLE={env_val}, then config.update('jaxtyping_disable', …) with {updates}: after step {k} the switch reads {res[k][1]} and an "
                           f"ill-typed call gives {res[k][2]!r}; it must read {want[k][1]} and give {want[k][2]!r}", {"env": env_val, "updates": updates, "observed": res})
+
+
+def thread_cases(out):
+    """the switch is one process-wide setting: a `config.update` is seen by threads started later, and it is not undone by
+    another thread that happens to be in the middle of reporting a type error (its argument's __repr__ parked) meanwhile"""
+    import threading
+
+    import typeguard
+    from jaxtyping import Float, jaxtyped
+
+    class A:
+        def __init__(self, shape, gate=None):
+            self.shape, self.dtype, self.gate = shape, "float32", gate
+
+        def __repr__(self):
+            if self.gate is not None:
+                self.gate[0].set()
+                self.gate[1].wait(30)
+            return f"A{self.shape}"
+
+    @jaxtyped(typechecker=typeguard.typechecked)
+    def f(x: Float[A, "3"]):
+        return "ran"
+
+    def call(x):
+        try:
+            return f(x)
+        except jaxtyping.TypeCheckError:
+            return "tce"
+
+    cfg = jaxtyping.config
+    try:
+        # (1) updated here, used in a thread started afterwards
+        cfg.update("jaxtyping_disable", True)
+        box = {}
+        t = threading.Thread(target=lambda: box.update(v=call(A((4,))), flag=bool(cfg.jaxtyping_disable)))
+        t.start()
+        t.join(30)
+        cfg.update("jaxtyping_disable", False)
+        t2 = threading.Thread(target=lambda: box.update(v2=call(A((4,)))))
+        t2.start()
+        t2.join(30)
+        out.case(("threads", "visibility"), True, sample=dict(box))
+        if box != {"v": "ran", "flag": True, "v2": "tce"}:
+            out.violation("threads:visibility", f"config.update('jaxtyping_disable', True) in the main thread, then an ill-typed call in a NEW thread: {box}; "
+                          "must be ran / True, and 'tce' again after switching back on", {"threads": "visibility"})
+        # (2) switched off while another thread is formatting a type error
+        gate = (threading.Event(), threading.Event())
+        box = {}
+        w = threading.Thread(target=lambda: box.update(worker=call(A((4,), gate))))
+        w.start()
+        inside = gate[0].wait(10)
+        cfg.update("jaxtyping_disable", True)
+        gate[1].set()
+        w.join(30)
+        box.update(inside=inside, flag=bool(cfg.jaxtyping_disable), after=[call(A((4,))), call(A((5,)))])
+        cfg.update("jaxtyping_disable", False)
+        box["back_on"] = call(A((4,)))
+        out.case(("threads", "update-during-error-report"), True, sample=dict(box))
+        if box != {"worker": "tce", "inside": True, "flag": True, "after": ["ran", "ran"], "back_on": "tce"}:
+            out.violation("threads:update-lost", f"checking was switched off while another thread was reporting a type error: {box}; the switch must stay off "
+                          "(flag True, later ill-typed calls run) until it is switched back on", {"threads": "update-during-error-report"})
+    finally:
+        cfg.update("jaxtyping_disable", False)
 
 
 HOOKED_CHILD = r"""
